@@ -307,6 +307,90 @@ fn product_family() -> Vec<String> {
     v
 }
 
+/// (d) address spellings: every way of writing an address that the short-string enumerations cannot reach - each group
+/// of an IPv6 literal in several widths and cases, `::` at every position and of every length, an embedded dotted quad
+/// behind 6 groups or behind `::`, the longest spellings there are (45 bytes bare, 47 bracketed), near misses (a ninth
+/// group, a five-digit group, an octet of 256, a zone), IPv4 octets in every width - bare and bracketed, plus hosts of
+/// every length from 1 to 300 in three shapes (letters, digits, dotted labels). The reference classifies each with std's
+/// address parsers, so nothing here is an expectation written by hand.
+fn address_family() -> Vec<String> {
+    let mut hosts: Vec<String> = Vec::new();
+    let spell = ["0", "00", "000", "0000", "1", "01", "0001", "ffff", "FFFF", "fFfF", "abcd", "a", "00a", "12345", "g"];
+    let quads = ["1.2.3.4", "0.0.0.0", "255.255.255.255", "10.10.10.10", "192.168.001.1", "256.1.1.1", "1.2.3", "1.2.3.4.5", "100.100.100.100"];
+    // full 8-group forms: one spelling everywhere, and every single-position deviation from it
+    for b in spell {
+        hosts.push(vec![b; 8].join(":"));
+        hosts.push(vec![b; 7].join(":"));
+        hosts.push(vec![b; 9].join(":"));
+        for i in 0..8 {
+            for a in spell {
+                if a != b {
+                    let mut g = vec![b; 8];
+                    g[i] = a;
+                    hosts.push(g.join(":"));
+                }
+            }
+        }
+        // 6 groups and a dotted quad; 5 and 7 groups and a quad (invalid)
+        for q in quads {
+            hosts.push(format!("{}:{}", vec![b; 6].join(":"), q));
+            hosts.push(format!("{}:{}", vec![b; 5].join(":"), q));
+            hosts.push(format!("{}:{}", vec![b; 7].join(":"), q));
+            hosts.push(format!("{}:ffff:{}", vec![b; 5].join(":"), q));
+            hosts.push(format!("::{}:{}", b, q));
+            hosts.push(format!("{}::{}", b, q));
+            hosts.push(format!("{}:{}::{}", b, b, q));
+        }
+        // `::` standing for k groups with l groups before it
+        for before in 0..=8usize {
+            for after in 0..=(8 - before) {
+                let l = vec![b; before].join(":");
+                let r = vec![b; after].join(":");
+                hosts.push(format!("{}::{}", l, r));
+            }
+        }
+        hosts.push(format!("{}::{}::{}", b, b, b));
+        hosts.push(format!("{}:::{}", b, b));
+        hosts.push(format!("{}%eth0", vec![b; 8].join(":")));
+    }
+    // IPv4 octets in every width
+    let oct = ["0", "1", "9", "10", "99", "100", "199", "255", "256", "00", "01", "001", "0255", "1000", ""];
+    for a in oct {
+        for i in 0..4 {
+            let mut o = vec!["1"; 4];
+            o[i] = a;
+            hosts.push(o.join("."));
+        }
+        hosts.push(vec![a; 4].join("."));
+    }
+    // every length from 1 to 300 in three shapes
+    for n in 1..=300usize {
+        hosts.push("a".repeat(n));
+        hosts.push("1".repeat(n));
+        let mut d = String::new();
+        while d.len() < n {
+            d.push_str("ab.");
+        }
+        d.truncate(n);
+        hosts.push(d);
+        // an IPv6 literal padded to that length where a legal spelling of that length exists (up to 39 hex, 45 mixed)
+        hosts.push(format!("{}::1", "0:".repeat(n.min(6))));
+    }
+    hosts.sort();
+    hosts.dedup();
+    let mut v = Vec::new();
+    for h in &hosts {
+        for p in ["0", "5555", "65535"] {
+            v.push(format!("tcp://{}:{}", h, p));
+            v.push(format!("tcp://[{}]:{}", h, p));
+        }
+        v.push(format!("tcp://{}", h));
+        v.push(format!("tcp://[{}]", h));
+        v.push(format!("ipc://{}", h));
+    }
+    v
+}
+
 pub fn run(tier: Tier, replay: Option<String>) -> i32 {
     world::install_panic_hook();
     let mut ck = Check::new("C19", tier, "model_checking");
@@ -345,6 +429,14 @@ pub fn run(tier: Tier, replay: Option<String>) -> i32 {
             viol.lock().unwrap().push((c, m, s.clone()));
         }
     }
+    // (d) address spellings and host lengths
+    let fam_d = address_family();
+    for s in &fam_d {
+        if let Some((c, m)) = check_one(s, &st) {
+            viol.lock().unwrap().push((c, m, s.clone()));
+        }
+    }
+    ck.cov("address_spelling_inputs", fam_d.len() as u64);
     let mut vs = viol.into_inner().unwrap();
     // shortest input first per class
     vs.sort_by(|a, b| (a.2.len(), &a.2).cmp(&(b.2.len(), &b.2)));
@@ -357,7 +449,7 @@ pub fn run(tier: Tier, replay: Option<String>) -> i32 {
     ck.cov(
         "rule",
         format!(
-            "all strings over the 18-symbol alphabet {:?} up to length {} ({}), the 5 prefixes {:?} followed by all strings up to length {} ({}), and a {}-string scheme x host x port product; all inputs are distinct by construction; non-trivial = the library accepted the string (so value comparison, address classification, Display bracket rule and parse-format-parse were all exercised)",
+            "all strings over the 18-symbol alphabet {:?} up to length {} ({}), the 5 prefixes {:?} followed by all strings up to length {} ({}), a {}-string scheme x host x port product, and an address-spelling family (IPv6 groups in every width and case, `::` at every position, embedded dotted quads, the longest spellings, near misses, IPv4 octet widths, hosts of every length 1..=300; bare and bracketed; see coverage.address_spelling_inputs); all inputs are distinct by construction; non-trivial = the library accepted the string (so value comparison, address classification, Display bracket rule and parse-format-parse were all exercised)",
             SIGMA, whole_len, a_count, prefixes, pre_len, b_count, fam.len()
         ),
     );
